@@ -291,3 +291,31 @@ def rule_scope_always_opened(ctx, facts, rule):
         reg = sites_star(facts, new, lambda g, t: t["callee"].endswith("LocalSpanStack::register_span_line"))
         ok, wit = new.must_pass([0], reg)
         ctx.check(ok and bool(reg), rule, new.path, new.span, "LocalCollector::new registers a span line on every path", "", "path avoiding register_span_line (bb%s)" % wit, extra="register")
+
+
+def rule_epoch_representation(ctx, facts, rule):
+    """The scope identity kept in handles is the scope's epoch, unnarrowed: all four epoch fields have one type and the
+    handles are built from the epoch without a cast (a truncated epoch makes finish_span skip after enough scopes)."""
+    prov = Prov(facts)
+    want = [("fastrace::local::local_span_line::SpanLine", "epoch"), ("fastrace::local::local_span_line::LocalSpanHandle", "span_line_epoch"),
+            ("fastrace::local::local_span_stack::SpanLineHandle", "span_line_epoch"), ("fastrace::local::local_span_stack::LocalSpanStack", "next_span_line_epoch")]
+    tys = {}
+    for a, f in want:
+        adt = facts.adts.get(a)
+        t = [x["ty"] for x in adt["variants"][0]["fields"] if x["name"] == f] if adt else []
+        tys[a.rsplit("::", 1)[1] + "." + f] = t[0] if t else None
+    ctx.check(len(set(tys.values())) == 1 and None not in tys.values(), rule, "fastrace::local", "-",
+              "the scope epoch has one integer type everywhere it is stored", "%s" % tys, "epoch field types differ: %s" % tys, extra="epoch-types")
+    from .core import constructions
+    n = 0
+    for a in ("fastrace::local::local_span_line::LocalSpanHandle", "fastrace::local::local_span_stack::SpanLineHandle"):
+        for fn, b, s, f in constructions(facts, a, crates=["fastrace"]):
+            if "span_line_epoch" not in f:
+                continue
+            n += 1
+            src = prov.of_operand(fn, f["span_line_epoch"])
+            casts = [v for o in src for v in o.via if v[0] == "cast"]
+            from_epoch = any(o.path and o.path[-1] in (".epoch", ".next_span_line_epoch") for o in src)
+            ctx.check(from_epoch and not casts, rule, fn.path, fn.loc(b), "%s.span_line_epoch is the scope's epoch, copied without a cast" % a.rsplit("::", 1)[1],
+                      "", "origins %s casts %s" % (origin_strs(src), casts), extra="epoch-copy")
+    ctx.floor(rule, "fastrace::local", n, 2, "handle constructions")
